@@ -127,6 +127,10 @@ func (a *statusAn) classOf(v ssa.Value, b *ssa.BasicBlock, nonNilParams bool, de
 	case *ssa.Phi:
 		cl := SBottom
 		for i, e := range x.Edges {
+			if ec, ok := a.edgeClass(e, x.Block().Preds[i], x.Block()); ok {
+				cl = cl.join(ec)
+				continue
+			}
 			cl = cl.join(a.classOf(e, x.Block().Preds[i], nonNilParams, depth+1))
 		}
 		return cl
@@ -383,4 +387,32 @@ func infeasibleUnderNonNilParams(b *ssa.BasicBlock) bool {
 		}
 	}
 	return false
+}
+
+// edgeClass: the class of status v on the CFG edge pred -> succ when the branch that ends pred tests v.OK() - the
+// value merged by a phi behind `if st.OK() { ...; st = Errorf(...) }` is the failed status on the edge that skips
+// the body (pathConds(pred) does not contain the test, the edge does).
+func (a *statusAn) edgeClass(v ssa.Value, pred, succ *ssa.BasicBlock) (SClass, bool) {
+	if len(pred.Instrs) == 0 {
+		return SUnknown, false
+	}
+	iff, ok := pred.Instrs[len(pred.Instrs)-1].(*ssa.If)
+	if !ok || pred.Succs[0] == pred.Succs[1] {
+		return SUnknown, false
+	}
+	cv, truth := iff.Cond, pred.Succs[0] == succ
+	for {
+		un, ok := cv.(*ssa.UnOp)
+		if !ok || un.Op != token.NOT {
+			break
+		}
+		cv, truth = un.X, !truth
+	}
+	if x, ok := okCallOn(cv); ok && sameStatusValue(x, unspill(v)) {
+		if truth {
+			return SOK, true
+		}
+		return SNonOK, true
+	}
+	return SUnknown, false
 }
